@@ -221,15 +221,17 @@ def run(tier, replay=None):
                     break
         if sd:
             ctx.broken.append("correspondence synth (bend histories): %d differing snapshots" % sd)
-        # ---- portamento (implementation only): a key pressed legato glides to its pitch; once the glide has ended (2 s rendered) a
+        # ---- portamento (implementation only): a key pressed legato glides to its pitch; once the glide has ended (4 s rendered) a
         # pitch-bend message must leave every held key at key + bend*range
         phs = []
         for _ in range(6 if tier == "quick" else 60):
             keys = rng.sample([48, 52, 55, 60, 64, 67, 72, 76], rng.choice([2, 2, 3]))
-            h = ["new 65536 1", "bank " + bank, "cc 0 65 127", "cc 0 5 %d" % rng.choice([20, 60, 80])]
+            # (portamento times of at most 50: the slowest of these glides, 28 semitones, is over well within the four seconds rendered below;
+            #  at 80 a twelve-semitone glide takes about three seconds — a first version of this case rendered too little and raised a false alarm)
+            h = ["new 65536 1", "bank " + bank, "cc 0 65 127", "cc 0 5 %d" % rng.choice([10, 30, 50])]
             for k in keys:
                 h += ["on 0 %d 100" % k, "gen %d" % rng.choice([64, 656, 4096])]
-            h += ["gen 65536", "gen 65536"]
+            h += ["gen 65536", "gen 65536", "gen 65536", "gen 65536"]
             b = rng.choice([0, 4096, 8192, 12288, 16383])
             h.append("pb 0 %d" % b)
             phs.append((h, keys, b))
